@@ -26,6 +26,9 @@ def lifeRound (scripts : List (List Char)) (r : LRun) (j : Nat) : LRun := Id.run
       if a == 'R' then
         r := { r with s := step r.s (.data i), seen := r.seen.modify i (· ++ "200;") }
       else if a == 'P' || a == 'B' then r := { r with s := step r.s (.data i) }
+      else if a == 'Z' then
+        -- a request, then silence until the server expires the connection (the 408 follows the blocked answer), then the close
+        r := { r with s := step (step r.s (.data i)) (.expire i), seen := r.seen.modify i (· ++ "200+408!;"), open_ := r.open_.set i false }
       else if a == 'A' then r := { r with s := step (step r.s (.data i)) (.gone i), open_ := r.open_.set i false }
       else if a == 'C' || a == 'H' || a == 'X' then
         r := { r with s := step r.s (.gone i), open_ := r.open_.set i false }
